@@ -347,11 +347,28 @@ let cmd_lookup_gen streams args =
        | _ -> failwith "lookup: bad header")
   | _ -> failwith "lookup: bad args"
 
+(* totals | rows k:p:o:l:c:s,... | packs id:len,... | loose k:len,...  ->  the seven numbers of Totals.totals_of *)
+let cmd_totals args =
+  match List.map String.trim (String.split_on_char '|' args) with
+  | [_; rs; ps; ls] ->
+      let row s = (match List.map int_of_string (String.split_on_char ':' s) with
+        | [k; p; o; l; c; sz] -> { rkey = n_of_int k; rpack = z_of_int p; roff = nat_of_int o; rlen = nat_of_int l; rcomp = (c = 1); rsize = nat_of_int sz }
+        | _ -> failwith "totals: bad row") in
+      let file n = { fdata = List.init n (fun _ -> N0); fsynced = [] } in
+      let pair s = (match List.map int_of_string (String.split_on_char ':' s) with [a; b] -> (a, b) | _ -> failwith "totals: bad pair") in
+      let w = { loose = List.map (fun s -> let (k, n) = pair s in (n_of_int k, file n)) (split_on ',' ls);
+                packs = List.map (fun s -> let (i, n) = pair s in (z_of_int i, file n)) (split_on ',' ps);
+                sandbox = []; db = List.map row (split_on ',' rs) } in
+      let t = totals_of w in
+      Printf.printf "%d %d %d %d %d %d %d\n" (int_of_nat t.t_packed) (int_of_nat t.t_packed_disk) (int_of_nat t.t_packfiles) (int_of_nat t.t_loose)
+        (int_of_nat t.n_packed) (int_of_nat t.n_loose) (int_of_nat t.n_packfiles)
+  | _ -> failwith "totals: bad args"
+
 let cmd_backup_phases _ =
   print_endline (String.concat "," (List.map (function PhLoose -> "loose" | PhDump -> "dump" | PhCopyDump -> "copydump" | PhPacks -> "packs" | PhRest -> "rest") backup_phases))
 
 let () =
-  let extra = ref [("backup_phases", cmd_backup_phases); ("lookup", cmd_lookup_gen None); ("lookup_events", cmd_lookup_gen (Some true)); ("lookup_events_meta", cmd_lookup_gen (Some false)); ("pick", cmd_pick); ("estimate", cmd_estimate); ("plan", cmd_plan); ("segs", cmd_segs); ("por", cmd_por); ("bio", cmd_bio true); ("fio", cmd_bio false); ("zsd", cmd_zsd)] in
+  let extra = ref [("backup_phases", cmd_backup_phases); ("totals", cmd_totals); ("lookup", cmd_lookup_gen None); ("lookup_events", cmd_lookup_gen (Some true)); ("lookup_events_meta", cmd_lookup_gen (Some false)); ("pick", cmd_pick); ("estimate", cmd_estimate); ("plan", cmd_plan); ("segs", cmd_segs); ("por", cmd_por); ("bio", cmd_bio true); ("fio", cmd_bio false); ("zsd", cmd_zsd)] in
   try
     while true do
       let line = input_line stdin in
